@@ -361,8 +361,8 @@ func (c *Campaign) Go() {
 		// sparse continuation of the sweep: abort points deep inside later iterations (aspiration
 		// re-searches, null-move subtrees) where the dense range does not reach
 		if !root.Final() {
-			for j := 0; j < c.SweepK/2; j++ {
-				k := c.SweepK + 1 + rng.IntN(40*c.SweepK)
+			for j := 0; j < min(c.SweepK/2, 400); j++ {
+				k := c.SweepK + 1 + rng.IntN(min(40*c.SweepK, 40000))
 				c.one(cs, &root, s, Request{Nodes: k, NoOutput: tt < 32000}, lcs[wk], wk)
 				lcs[wk].C["abort_sweep_sparse_deep_points"]++
 			}
